@@ -110,6 +110,11 @@ func c02Plan(r *simkit.Run, c Cfg, w *World) (c04Cfg, []faultPlan) {
 			}
 			plans = append(plans, p)
 		}
+		if cfg.seg > 0 && tp.Chance(1, 3, "adsDepthLE") {
+			// a depth limit at or below the segment size: the whole sync is
+			// one segment of a segmented sync
+			cfg.adsDepth = int64(tp.Range(1, int(cfg.seg), "adsDepthV"))
+		}
 		if h.mhType != multihash.IDENTITY && tp.Chance(1, 8, "bigHead") {
 			// size boundaries: the newest advertisement is a block of exactly
 			// 2^k-1, 2^k or 2^k+1 bytes (4 KiB .. 4 MiB) and arrives with
